@@ -164,8 +164,34 @@ func c08Play(w *c08World, steps []c08Step, onlyLast bool) (viol string, key stri
 		exprs[i] = q.Expr.Updog()
 		live[i] = &updog.Query{Expr: exprs[i], GroupBy: append([]string{}, q.GroupBy...)}
 	}
+	type held struct {
+		res  *updog.Result
+		text string
+		step int
+	}
+	var kept []held
 	for n, st := range steps {
-		got, _ := safeExec(w.idx[st.I], live[st.Q])
+		res, rerr := func() (r *updog.Result, err error) {
+			defer func() {
+				if p := recover(); p != nil {
+					r, err = nil, fmt.Errorf("PANIC %v", p)
+				}
+			}()
+			return w.idx[st.I].Execute(live[st.Q])
+		}()
+		got := renderResult(res, rerr)
+		if rerr != nil && strings.HasPrefix(rerr.Error(), "PANIC") {
+			got = rerr.Error()
+		}
+		// a Result handed out earlier belongs to the caller: later executions must not change it
+		for _, h := range kept {
+			if now := renderResult(h.res, nil); now != h.text {
+				return fmt.Sprintf("the Result returned by step %d changed after step %d: it was %s, now it reads %s", h.step, n+1, h.text, now), ""
+			}
+		}
+		if res != nil && rerr == nil {
+			kept = append(kept, held{res, got, n + 1})
+		}
 		if onlyLast && n < len(steps)-1 {
 			continue
 		}
@@ -321,11 +347,22 @@ func c08Edited(ctx *rt.Ctx, w *c08World) *rt.Violation {
 							e = &updog.ExprNot{Expr: &updog.ExprOr{Exprs: []updog.Expression{&updog.ExprAnd{Exprs: []updog.Expression{l[0]}}, l[1]}}}
 						}
 						q := &updog.Query{Expr: e, GroupBy: []string{"b"}}
+						var keepGB []string
 						safeExec(idx, q)
 						for step, v := range []string{v1, v2} {
 							l[leaf].Value = v
 							// the group-by list is a caller-visible field too: alternate between a list, none, and another list
 							q.GroupBy = [][]string{{"b"}, nil, {"a", "b"}}[(step+len(v1))%3]
+							if step == 1 && len(q.GroupBy) > 0 && len(v2) == 1 {
+								// an element of the caller's own slice is changed in place (same slice, same length)
+								q.GroupBy = keepGB
+								if keepGB != nil {
+									keepGB[0] = map[string]string{"a": "b", "b": "a"}[keepGB[0]]
+								}
+							}
+							if len(q.GroupBy) > 0 {
+								keepGB = q.GroupBy
+							}
 							fresh := append([]string{}, q.GroupBy...)
 							got, _ := safeExec(idx, q)
 							m := []*model.Expr{model.Eq("a", l[0].Value), model.Eq("b", l[1].Value)}
